@@ -46,8 +46,83 @@ class Session:
         return f in self.common and bool(addpath_mode(self.l, f) & 2) and bool(addpath_mode(self.r, f) & 1)
 
 # ------------------------------------------------------------------ the values of a case
+def be24(n): return [(n >> 16) & 255, (n >> 8) & 255, n & 255]
+
+def rd_ok(rd): return len(rd) == 8 and rd[0] == 0 and rd[1] <= 2
+
+def fs_comp_ok(c, v6):
+    if c[0] == 'p':
+        return c[1] in (1, 2) and c[2] <= (128 if v6 else 32) and c[3] < 256 and (v6 or c[3] == 0)
+    ops = c[2]
+    # RFC 8955 4.2.1.1: the end-of-list bit is set in the last <operator, value> pair and only there;
+    # the length bits are derived from the value
+    return (3 <= c[1] <= (13 if v6 else 12)) and len(ops) >= 1 and all(0 <= o[0] < 256 and o[0] & 0x30 == 0 and 0 <= o[1] < 2 ** 64 for o in ops) and \
+        all((o[0] & 0x80 != 0) == (k == len(ops) - 1) for k, o in enumerate(ops))
+
+def evpn_ok(n):
+    k = n[1]
+    if not rd_ok(n[2]): return False
+    ipok = lambda b: len(b) in (4, 16)
+    if k == 1: return len(n[3]) == 10 and n[4] < 2 ** 32 and n[5] < 2 ** 24
+    if k == 2: return len(n[3]) == 10 and n[4] < 2 ** 32 and len(n[5]) == 6 and len(n[6]) in (0, 4, 16) and n[7] < 2 ** 24 and (n[8] is None or n[8] < 2 ** 24)
+    if k == 3: return n[3] < 2 ** 32 and ipok(n[4])
+    if k == 4: return len(n[3]) == 10 and ipok(n[4])
+    if k == 5: return len(n[3]) == 10 and n[4] < 2 ** 32 and ipok(n[6]) and len(n[7]) == len(n[6]) and n[5] <= 8 * len(n[6]) and n[8] < 2 ** 24
+    return False
+
+def enc_op(o):
+    v = o[1]
+    order = 0 if v <= 0xff else 1 if v <= 0xffff else 2 if v <= 0xffffffff else 3
+    return [o[0] | (order << 4)] + list(v.to_bytes(1 << order, 'big'))
+
+def enc_nlri(n, withdraw=False):
+    """the octets of one NLRI as the RFCs lay it out (4271 4.3, 4364 4.3.4, 8277 2, 8955 4 / 8956 3,
+    4684 4, 7432 7 / 9136 3, 9830 2.1)"""
+    t = n[0]
+    def labs(ls):
+        out = []
+        for k, v in enumerate(ls):
+            raw = (v << 4) | (1 if k == len(ls) - 1 else 0)
+            out += be24(raw)
+        return out
+    if t in ('v4', 'v6'): return [n[1]] + n[2][:(n[1] + 7) // 8]
+    if t in ('vpn4', 'vpn6'): return [24 * len(n[1]) + 64 + n[3]] + labs(n[1]) + n[2] + n[4][:(n[3] + 7) // 8]
+    if t in ('lab4', 'lab6'):
+        if withdraw: return [24 + n[2], 0x80, 0, 0] + n[3][:(n[2] + 7) // 8]
+        return [24 * len(n[1]) + n[2]] + labs(n[1]) + n[3][:(n[2] + 7) // 8]
+    if t == 'fs':
+        body = list(n[2] or [])
+        for c in n[3]:
+            if c[0] == 'p':
+                # (IPv6: length, offset, then -- as the code under test and its decoder do -- ceil(length / 8)
+                # octets from bit 0; RFC 8956 3.1 counts the pattern from the offset: identical for offset 0)
+                body += [c[1], c[2]] + ([c[3]] if n[1] else []) + c[4][:(c[2] + 7) // 8]
+            else:
+                body += [c[1]]
+                for o in c[2]: body += enc_op(o)
+        return ([len(body)] if len(body) < 240 else [0xF0 | (len(body) >> 8), len(body) & 255]) + body
+    if t == 'rtc':
+        return [[0], [32] + be32(n[2]), [96] + be32(n[2]) + list(n[3])][n[1]]
+    if t == 'evpn':
+        k = n[1]
+        if k == 1: d = n[2] + n[3] + be32(n[4]) + be24(n[5])
+        elif k == 2: d = n[2] + n[3] + be32(n[4]) + [48] + n[5] + [8 * len(n[6])] + n[6] + be24(n[7]) + (be24(n[8]) if n[8] is not None else [])
+        elif k == 3: d = n[2] + be32(n[3]) + [8 * len(n[4])] + n[4]
+        elif k == 4: d = n[2] + n[3] + [8 * len(n[4])] + n[4]
+        else: d = n[2] + n[3] + be32(n[4]) + [n[5]] + n[6] + n[7] + be24(n[8])
+        return [k, len(d)] + d
+    if t == 'srp': return [8 * (8 + len(n[3]))] + be32(n[1]) + be32(n[2]) + n[3]
+    return list(n[2])
+
 def nlri_ok(n):
     t = n[0]
+    if t == 'fs':
+        if not ((n[2] is None or rd_ok(n[2])) and all(fs_comp_ok(c, n[1]) for c in n[3])): return False
+        e = enc_nlri(n)
+        return len(e) - (1 if e[0] < 0xF0 else 2) <= 4095     # the length prefix has 12 bits
+    if t == 'rtc': return n[1] in (0, 1, 2) and n[2] < 2 ** 32 and (n[1] != 2 or len(n[3]) == 8)
+    if t == 'evpn': return evpn_ok(n)
+    if t == 'srp': return n[1] < 2 ** 32 and n[2] < 2 ** 32 and len(n[3]) in (4, 16)
     if t == 'v4': return n[1] <= 32
     if t == 'v6': return n[1] <= 128
     if t in ('vpn4', 'vpn6'):
@@ -61,6 +136,7 @@ def nlri_size(n):
     if t in ('v4', 'v6'): return 1 + (n[1] + 7) // 8
     if t in ('vpn4', 'vpn6'): return 1 + 3 * len(n[1]) + 8 + (n[3] + 7) // 8
     if t in ('lab4', 'lab6'): return 1 + 3 * len(n[1]) + (n[2] + 7) // 8
+    if t in ('fs', 'rtc', 'evpn', 'srp'): return len(enc_nlri(n))
     return len(n[2])
 
 def nlri_key(n, withdraw=False):
@@ -73,7 +149,19 @@ def nlri_key(n, withdraw=False):
     if t in ('lab4', 'lab6'):
         # RFC 8277 2.4: the label field of a withdrawal carries no information
         return (t, None if withdraw else tuple(n[1])) + sig(n[2], n[3])
+    if t == 'fs':
+        comps = tuple(('p', c[1], c[2], c[3] if n[1] else 0) + sig(c[2], c[4])[1:] if c[0] == 'p' else ('o', c[1], tuple(tuple(o) for o in c[2])) for c in n[3])
+        return ('fs', n[1], None if n[2] is None else tuple(n[2]), comps)
+    if t == 'rtc': return ('rtc', n[1], n[2] if n[1] else 0, tuple(n[3]) if n[1] == 2 else ())
+    if t == 'evpn': return ('evpn',) + tuple(tuple(x) if isinstance(x, list) else x for x in n[1:])
+    if t == 'srp': return ('srp', n[1], n[2], tuple(n[3]))
     return ('raw', tuple(n[2]))
+
+def as_input_kind(n, raw_input):
+    """a case that gives its NLRI as wire octets is compared on the RFC encoding of what the peer decoded"""
+    if raw_input and n[0] in ('fs', 'rtc', 'evpn', 'srp'):
+        return ['raw', 0, enc_nlri(n)]
+    return n
 
 def val_to_nlri(v):
     t = v[0]
@@ -83,6 +171,14 @@ def val_to_nlri(v):
     if t == 3: return ['vpn6', v[1], v[2], v[3], v[4]]
     if t == 4: return ['lab4', v[1], v[2], v[3]]
     if t == 5: return ['lab6', v[1], v[2], v[3]]
+    if t == 10:
+        comps = [['p', c[1], c[2], c[3], c[4]] if c[0] == 0 else ['o', c[1], c[2]] for c in v[3]]
+        return ['fs', v[1], v[2][0] if v[2] else None, comps]
+    if t == 11: return ['rtc', v[1], v[2], v[3]]
+    if t == 12:
+        if v[1] == 2: return ['evpn', 2, v[2], v[3], v[4], v[5], v[6], v[7], v[8][0] if v[8] else None]
+        return ['evpn'] + list(v[1:])
+    if t == 13: return ['srp', v[1], v[2], v[3]]
     return ['raw', v[1], v[2]]
 
 def aspath_segments(b):
@@ -428,6 +524,33 @@ def judge(c, o, prof):
     reach = t == 'reach'
     ap = sess.addpath(f)
     want_keys = sorted((e[0] if ap else 0, nlri_key(e[1], not reach)) for e in entries)
+    # the NLRI fields of the frames, concatenated, are the RFC encodings of the entries, in order
+    # (python mirror of reach_frames_all_families / unreach_frames_all_families with the RFC encoders)
+    try:
+        region = []
+        for fr in frames:
+            wd_, tl_, nl_ = W.read_update(fr)
+            if not mp_family(f, sess):
+                region += nl_ if reach else wd_
+            else:
+                for fl, code, v in tl_:
+                    if reach and code == 14:
+                        g, nhb, res_, body = W.read_mp_reach(v)
+                        if g != f: raise Bad('MP_REACH_NLRI for family %d' % g)
+                        region += body
+                    if not reach and code == 15:
+                        g, body = W.read_mp_unreach(v)
+                        if g != f: raise Bad('MP_UNREACH_NLRI for family %d' % g)
+                        region += body
+    except Bad as e:
+        return '%s: %s' % (prof, e)
+    want_region = []
+    for e in entries:
+        want_region += (be32(e[0]) if ap else []) + enc_nlri(e[1], withdraw=not reach)
+    if region != want_region:
+        k = next((x for x in range(min(len(region), len(want_region))) if region[x] != want_region[x]), min(len(region), len(want_region)))
+        return '%s: the NLRI octets of the frames differ from the RFC encoding of the entries at offset %d (%d octets written, %d expected): got %s, expected %s' % (
+            prof, k, len(region), len(want_region), region[max(0, k - 4):k + 12], want_region[max(0, k - 4):k + 12])
     if (f >> 16) in (1, 2) and (f & 255) in (1, 2):
         try:
             got = routes_from_frames(frames, sess, f, reach)
@@ -449,6 +572,7 @@ def judge(c, o, prof):
             for fl, code, v in tl:
                 if (fl & 0x10 == 0) != (len(v) <= 255) and code not in (14,) and not any(a[1] == code and a[0] == 2 and a[2] & 0x10 for a in m[3]):
                     return '%s: frame %d: attribute %d of %d octets has extended-length flag %d' % (prof, k, code, len(v), fl & 0x10)
+    raw_input = any(e[1][0] == 'raw' for e in entries)
     got_keys = []
     exp_attrs, aspath_exact = expected_attrs(m[3], sess.two_byte) if reach else ([], True)
     for k, d in enumerate(decoded):
@@ -469,7 +593,7 @@ def judge(c, o, prof):
                 if s[0] != f:
                     return '%s: frame %d: family %d, expected %d' % (prof, k, s[0], f)
                 ents = s[2] if reach else s[1]
-                got_keys += [(e[0], nlri_key(val_to_nlri(e[1]), not reach)) for e in ents]
+                got_keys += [(e[0], nlri_key(as_input_kind(val_to_nlri(e[1]), raw_input), not reach)) for e in ents]
                 if reach:
                     nh = s[1][0] if s[1] else None
                     if nh != plan[1]:
